@@ -469,3 +469,68 @@ R.contract(
     feas_timeout_ms=60, named_seqs=True,
     unreachable_ok=["order = [0]"],   # the `else: order = [0]` arm is dead code: k_considered <= 1 returned earlier
 )
+
+# ------------------------------------------------------------------ t2_semantic: the sequential tier walks hand the index
+# the configured threshold / owner / k / tier hints.  The per-tier clauses of `_search_with_episodes` above are stated
+# over the hints it is given; what reaches it from the stage is decided here: both `for tier in tiers:` walks of
+# t2_semantic are verified as regions against an abstract index whose `search_tiered` has the *precondition* "hints
+# carry the stage's sim_threshold, the tier's own hint and the logical now; owner and k are the stage's" (named
+# obligations call:.../pre:*), returns arbitrary hit objects, and never sees a tier other than the three served ones.
+import ast as _ast
+T2C = "clematis/engine/stages/t2/core.py:"
+
+
+def _tier_walks(fn):
+    out = []
+    for n in _ast.walk(fn):
+        if isinstance(n, _ast.For) and isinstance(n.iter, _ast.Name) and n.iter.id == "tiers" and any(
+                isinstance(c, _ast.Call) and isinstance(c.func, _ast.Attribute) and c.func.attr == "search_tiered"
+                for c in _ast.walk(n)):
+            out.append(n)
+    return sorted(out, key=lambda n: n.lineno)
+
+
+R.region("tier-walk-0", lambda fn: _tier_walks(fn)[0:1])
+R.region("tier-walk-1", lambda fn: _tier_walks(fn)[1:2])
+R.untype("C11QVec")
+R.record("C11HitObj", {"id": "str"})
+R.funtype("C11SearchTiered", params=["owner", "q_vec", "k", "tier", "hints"], returns="List[C11HitObj]",
+          requires=[
+              ("threshold-passed", "'sim_threshold' in hints and hints['sim_threshold'] == g_thr"),
+              ("owner-is-the-stage-owner", "owner == g_owner"),
+              ("k-is-k-retrieval", "k == g_k"),
+              ("only-served-tiers", "tier == 'exact_semantic' or tier == 'cluster_semantic' or tier == 'archive'"),
+              ("exact-tier-gets-recency-window", "tier != 'exact_semantic' or ('recent_days' in hints and hints['recent_days'] == g_days)"),
+              ("cluster-tier-gets-top-m", "tier != 'cluster_semantic' or ('clusters_top_m' in hints and hints['clusters_top_m'] == g_topm)"),
+              ("logical-now-passed", "is_none(g_now) or len(some(g_now)) == 0 or ('now' in hints and hints['now'] == some(g_now))"),
+          ],
+          effects_before=["n_calls = n_calls + 1"])
+R.objtype("C11IndexIface", {"search_tiered": "C11SearchTiered"})
+_WALK_INV = ["implies(k_retrieval >= 1, len(retrieved) < k_retrieval)",
+             "forall(a, 0 <= a < len(retrieved), retrieved[a].id in seen_ids)",
+             "forall2(a, b, 0 <= a and a < b and b < len(retrieved), retrieved[a].id != retrieved[b].id)"]
+for _t in ("tier-walk-0", "tier-walk-1"):
+    R.contract(
+        T2C + "t2_semantic#" + _t, "C11", name="t2_semantic[%s]" % _t, callee=False,
+        types={"tiers": "List[str]", "sim_threshold": "float", "exact_recent_days": "int", "clusters_top_m": "int",
+               "now_str": "Optional[str]", "owner_query": "Optional[str]", "q_vec": "Un[C11QVec]", "k_retrieval": "int",
+               "index": "C11IndexIface", "retrieved": "List[C11HitObj]", "seen_ids": "Set[str]",
+               "tier_sequence": "List[str]", "raw_hits_by_id": "Dict[str, str]"},
+        ghost={"g_thr": ("float", "any"), "g_owner": ("Optional[str]", "any"), "g_k": ("int", "any"), "g_days": ("int", "any"),
+               "g_topm": ("int", "any"), "g_now": ("Optional[str]", "any"), "n_calls": ("int", "0")},
+        requires=[("ghosts-name-the-stage-values", "g_thr == sim_threshold and g_owner == owner_query and g_k == k_retrieval and "
+                   "g_days == exact_recent_days and g_topm == clusters_top_m and g_now == now_str"),
+                  ("fresh-result-list", "len(retrieved) == 0 and len(seen_ids) == 0 and len(tier_sequence) == 0")],
+        ensures=[
+            ("at-most-one-search-per-tier", "n_calls <= len(tiers)"),
+            ("tiers-untouched", "seq_eq(tiers, old(tiers))"),
+            ("at-most-k-hits-collected", "implies(k_retrieval >= 1, len(retrieved) <= k_retrieval)"),
+            ("collected-ids-are-distinct", "forall2(a, b, 0 <= a and a < b and b < len(retrieved), retrieved[a].id != retrieved[b].id)"),
+        ],
+        raises="none",
+        loops={0: {"inv": ["n_calls <= _i", "len(tier_sequence) == _i"] + _WALK_INV, "modifies": ["n_calls"]},
+               1: {"inv": ["n_calls <= pre_loop(n_calls)"] + _WALK_INV}},
+        locals={"hits": "List[C11HitObj]"},
+        # hit objects are not dicts here (the dict-shaped hits of the LanceDB backend go through _EpRefShim)
+        unreachable_ok=["hid = str(h.get('id'))", "raw_hits_by_id[hid] = h", "ref = _EpRefShim(h)"],
+    )
